@@ -113,9 +113,20 @@ def valid(case):
         return False
     full = t[0] == "srv"
     b = Book(int(t[1]), full)
+    big = set()      # connections whose current request is an upload head without body (C / Q<k>)
     for c in t[2:]:
         if c == "c":
             b.connect()
+        elif c == "C":
+            if not full:
+                return False
+            big.add(b.connect())
+        elif c[0] == "Q":
+            k = int(c[1:])
+            if not full or k not in b.idle() or k not in b.live or k in b.partial:
+                return False
+            b.request(k)
+            big.add(k)
         elif c == "r":
             if b.revoked:
                 return False
@@ -130,6 +141,8 @@ def valid(case):
                 if k in b.handlers():
                     if kind not in HANDLER_KINDS:
                         return False
+                    if k in big and kind not in ("err500", "panic", "drop"):
+                        return False   # only endings in which the server closes, with the body unread
                     if k in b.unread and kind not in ("err500", "panic", "drop"):
                         return False   # a buffered follower would be served after a client-side ending
                 elif k in b.idle():
@@ -142,7 +155,7 @@ def valid(case):
             b.end(k)
         elif c[0] == "l":
             k = int(c[1:])
-            if not full or k not in b.handlers():
+            if not full or k not in b.handlers() or k in big:
                 return False
             b.release(k)
         elif c[0] == "q":
